@@ -1096,7 +1096,9 @@ pub fn compare(obs: &Val, exp: &MOut, epsw: f64, tiny: f64) -> Result<f64, Strin
                 return Err(format!("length {} expected {}", o.len(), reference.len()));
             }
             for i in 0..o.len() {
-                let (e, thr) = if *is_std { (reference[i].sqrt(), tolv * reference[i].sqrt() + floor[i].sqrt()) } else { (reference[i], tolv * reference[i] + floor[i]) };
+                // squares of deviations below the smallest normal number of the width are rounding garbage
+                let minw = if epsw > 1e-10 { f32::MIN_POSITIVE as f64 } else { f64::MIN_POSITIVE };
+                let (e, thr) = if *is_std { (reference[i].sqrt(), tolv * reference[i].sqrt() + floor[i].sqrt() + minw.sqrt()) } else { (reference[i], tolv * reference[i] + floor[i] + minw) };
                 let d = (o[i] - e).abs();
                 if !(d <= thr + tiny) {
                     return Err(format!("{}[{}]: observed {:e}, spread-based reference {:e} (|diff| {:e} > {:e})", if *is_std { "std" } else { "var" }, i, o[i], e, d, thr));
